@@ -23,11 +23,10 @@ EXTENDS Naturals, Integers, Sequences, FiniteSets, TLC, Json, IOUtils
 MaxLen == IF "MAXLEN" \in DOMAIN IOEnv THEN atoi(IOEnv.MAXLEN) ELSE 3
 Part == IF "PART" \in DOMAIN IOEnv THEN IOEnv.PART ELSE "all"        \* optional: one helper per TLC run
 
-VARIABLE cell
-vars == <<cell>>
+VARIABLES stage, cell
+vars == <<stage, cell>>
 
 Keys == {-1, 0, 1, 2}
-Seqs == UNION {[1..n -> Keys] : n \in 0..MaxLen}
 Elems(xs) == [p \in 1..Len(xs) |-> [k |-> xs[p], p |-> p]]
 K(e) == IF e.k = -1 THEN 1 ELSE e.k
 Truthy(e) == e.k > 0                        \* bool(element): None and 0 / objects with k = 0 are falsy
@@ -64,22 +63,29 @@ Unorderable(es, ek) == Len(es) >= 2 /\ (ek = "obj" \/ \E j \in 1..Len(es) : es[j
 Cell(h, xs, ek, it, form, fk, rev, k, mt, x, ec) ==
   [h |-> h, xs |-> xs, ek |-> ek, it |-> it, form |-> form, fk |-> fk, rev |-> rev, k |-> k, mt |-> mt, x |-> x, ec |-> ec]
 Its == {"list", "tuple", "iter"}
-PerElement(h) == {Cell(h, xs, "obj", it, "one", fk, 0, 0, 1, "ok", "one") : xs \in Seqs, it \in Its, fk \in {"plain", "block"}}
-NoFunction(h, revs) == {Cell(h, xs, ek, it, "one", "none", r, 0, 1, "ok", "one") : xs \in Seqs, ek \in {"obj", "int"}, it \in Its, r \in revs}
-Extreme(h) ==
-  {Cell(h, xs, "obj", it, "one", fk, 0, 0, 1, "ok", "one") : xs \in Seqs, it \in Its, fk \in {"plain", "block"}}
-  \cup NoFunction(h, {0})
-  \cup {Cell(h, xs, ek, "list", "var", fk, 0, 0, 1, "ok", "one") : xs \in Seqs \ {<<>>}, ek \in {"obj", "int"}, fk \in {"none", "plain", "block"}}
-  \cup {Cell(h, <<>>, "obj", "list", "zero", fk, 0, 0, 1, "ok", "one") : fk \in {"none", "plain"}}
-  \cup {Cell(h, xs, "int", "list", "kw", fk, 0, 0, 1, "ok", "one") : xs \in {<<>>, <<1, 2>>}, fk \in {"none", "plain"}}
-Cells ==
-  PerElement("amap") \cup PerElement("afilter") \cup NoFunction("afilter", {0}) \cup PerElement("afilterfalse")
-  \cup PerElement("asift")
-  \cup {Cell("asorted", xs, "obj", it, "one", fk, r, 0, 1, "ok", "one") : xs \in Seqs, it \in Its, fk \in {"plain", "block"}, r \in {0, 1}}
-  \cup NoFunction("asorted", {0, 1})
-  \cup Extreme("amax") \cup Extreme("amin")
-  \cup {Cell("aretry", <<>>, "obj", "list", "one", fk, 0, k, mt, x, ec) :
-          fk \in {"plain", "block"}, k \in 0..4, mt \in (-1)..4, x \in {"ok", "unlisted"}, ec \in {"one", "tuple"}}
+SeqsN(n) == [1..n -> Keys]
+PerElement(h, n) == {Cell(h, xs, "obj", it, "one", fk, 0, 0, 1, "ok", "one") : xs \in SeqsN(n), it \in Its, fk \in {"plain", "block"}}
+NoFunction(h, n, revs) == {Cell(h, xs, ek, it, "one", "none", r, 0, 1, "ok", "one") : xs \in SeqsN(n), ek \in {"obj", "int"}, it \in Its, r \in revs}
+Extreme(h, n) ==
+  PerElement(h, n) \cup NoFunction(h, n, {0})
+  \cup (IF n = 0 THEN {} ELSE {Cell(h, xs, ek, "list", "var", fk, 0, 0, 1, "ok", "one") : xs \in SeqsN(n), ek \in {"obj", "int"}, fk \in {"none", "plain", "block"}})
+  \cup (IF n # 0 THEN {} ELSE {Cell(h, <<>>, "obj", "list", "zero", fk, 0, 0, 1, "ok", "one") : fk \in {"none", "plain"}})
+  \cup (IF n \notin {0, 2} THEN {} ELSE {Cell(h, IF n = 0 THEN <<>> ELSE <<1, 2>>, "int", "list", "kw", fk, 0, 0, 1, "ok", "one") : fk \in {"none", "plain"}})
+HelperNames == {"amap", "afilter", "afilterfalse", "asift", "asorted", "amax", "amin", "aretry"}
+(* the cells of helper h over inputs of length n *)
+CellsOf(h, n) ==
+  CASE h \in {"amap", "afilterfalse", "asift"} -> PerElement(h, n)
+    [] h = "afilter" -> PerElement(h, n) \cup NoFunction(h, n, {0})
+    [] h = "asorted" ->
+         {Cell(h, xs, "obj", it, "one", fk, r, 0, 1, "ok", "one") : xs \in SeqsN(n), it \in Its, fk \in {"plain", "block"}, r \in {0, 1}}
+         \cup NoFunction(h, n, {0, 1})
+    [] h \in {"amax", "amin"} -> Extreme(h, n)
+    [] h = "aretry" ->
+         IF n # 0 THEN {} ELSE
+         {Cell(h, <<>>, "obj", "list", "one", fk, 0, k, mt, x, ec) :
+            fk \in {"plain", "block"}, k \in 0..4, mt \in (-1)..4, x \in {"ok", "unlisted"}, ec \in {"one", "tuple"}}
+(* stage 0: a stub naming helper and input length (so that TLC's workers share the enumeration); stage 1: a cell *)
+Stubs == {Cell(h, <<>>, "obj", "list", "stub", "none", 0, n, 1, "ok", "one") : h \in (IF Part = "all" THEN HelperNames ELSE {Part}), n \in 0..MaxLen}
 
 (* ---------------------------------------------------------------- prescribed output of a cell *)
 Val(s) == <<"val", s>>
@@ -112,8 +118,8 @@ Flushes(c) == IF c.h # "aretry" /\ c.fk = "block" /\ Len(c.xs) > 0 /\ Res(c)[1] 
 Execs(c) == IF c.h # "aretry" THEN 0 - 1 ELSE IF c.mt < 1 THEN 0 ELSE RetryExecs(c.k, c.mt)
 Out(c) == [res |-> Res(c), flushes |-> Flushes(c), execs |-> Execs(c)]
 
-Init == cell \in {c \in Cells : Part = "all" \/ c.h = Part}
-Next == UNCHANGED cell
+Init == stage = 0 /\ cell \in Stubs
+Next == stage = 0 /\ stage' = 1 /\ cell' \in CellsOf(cell.h, cell.k)
 Spec == Init /\ [][Next]_vars
 
 (* ---------------------------------------------------------------- the oracle's own algebra *)
@@ -121,18 +127,18 @@ IsSorted(m, r, rev) == \A j, l \in 1..Len(r) : j < l =>
    /\ (IF rev THEN F(m, r[j]) >= F(m, r[l]) ELSE F(m, r[j]) <= F(m, r[l]))
    /\ (F(m, r[j]) = F(m, r[l]) => r[j].p < r[l].p)                 \* stable in both directions
 IsPermutation(r, es) == Len(r) = Len(es) /\ {r[j] : j \in 1..Len(r)} = {es[j] : j \in 1..Len(es)}
-SortOracleOK == LET es == Elems(cell.xs) IN
+SortOracleOK == stage = 1 => LET es == Elems(cell.xs) IN
   \A rev \in BOOLEAN, m \in {"K", "own"} : IsSorted(m, StableSort(m, es, rev), rev) /\ IsPermutation(StableSort(m, es, rev), es)
-ExtremesOK == LET es == Elems(cell.xs) IN Len(es) > 0 => \A m \in {"K", "own"} :
+ExtremesOK == stage = 1 => LET es == Elems(cell.xs) IN Len(es) > 0 => \A m \in {"K", "own"} :
   /\ FirstMax(m, es) = Head(StableSort(m, es, TRUE)) /\ FirstMin(m, es) = Head(StableSort(m, es, FALSE))
-PartitionOK == LET es == Elems(cell.xs) IN \A m \in {"K", "own"} :
+PartitionOK == stage = 1 => LET es == Elems(cell.xs) IN \A m \in {"K", "own"} :
   /\ Sift(m, es)[1] = Filter(m, es) /\ Sift(m, es)[2] = FilterFalse(m, es)
   /\ Len(Filter(m, es)) + Len(FilterFalse(m, es)) = Len(es)
   /\ IsPermutation(Filter(m, es) \o FilterFalse(m, es), es)
-RetryOK == cell.h = "aretry" /\ cell.mt >= 1 =>
+RetryOK == stage = 1 /\ cell.h = "aretry" /\ cell.mt >= 1 =>
   /\ Execs(cell) >= 1 /\ Execs(cell) <= cell.mt /\ Execs(cell) <= cell.k + 1
   /\ (Execs(cell) = cell.k + 1 \/ Execs(cell) = cell.mt)
   /\ (Res(cell) = Err("Listed") <=> cell.k >= cell.mt)
 
-Export == PrintT(ToJson([cell |-> cell, out |-> Out(cell)]))
+Export == stage = 1 => PrintT(ToJson([cell |-> cell, out |-> Out(cell)]))
 =============================================================================
